@@ -113,4 +113,40 @@ Utf8Valid(s) ==
             /\ \A m \in (j + 1)..(j + n - 1) : IsCont(s[m])
             /\ n > 1 => Utf8Second(c, s[j + 1])
 
+-----------------------------------------------------------------------------
+\* base64 (RFC 4648): standard and URL-safe alphabets
+B64Char(v, url) == IF v < 26 THEN 65 + v ELSE IF v < 52 THEN 97 + (v - 26) ELSE IF v < 62 THEN 48 + (v - 52)
+                   ELSE IF v = 62 THEN (IF url THEN 45 ELSE 43) ELSE (IF url THEN 95 ELSE 47)
+Pow2(k) == CASE k = 0 -> 1 [] k = 1 -> 2 [] k = 2 -> 4 [] k = 3 -> 8 [] k = 4 -> 16 [] k = 5 -> 32 [] k = 6 -> 64
+             [] k = 7 -> 128 [] k = 8 -> 256 [] k = 9 -> 512 [] k = 10 -> 1024
+\* j-th 6-bit group (0-based) of b, missing low bits are zero
+Sextet(b, j) == LET bit == j * 6
+                    bi == bit \div 8 + 1
+                    off == bit % 8
+                    w == b[bi] * 256 + (IF bi + 1 <= Len(b) THEN b[bi + 1] ELSE 0)
+                IN (w \div Pow2(10 - off)) % 64
+B64Enc(b, url, pad) ==
+  LET ns == (Len(b) * 8 + 5) \div 6
+      body == [j \in 1..ns |-> B64Char(Sextet(b, j - 1), url)]
+  IN IF pad THEN body \o Rep((4 - (ns % 4)) % 4, 61) ELSE body
+
+B64Val(c, url) == IF IsUpper(c) THEN c - 65 ELSE IF IsLower(c) THEN c - 97 + 26 ELSE IF IsDigit(c) THEN c - 48 + 52
+                  ELSE IF c = (IF url THEN 45 ELSE 43) THEN 62 ELSE IF c = (IF url THEN 95 ELSE 47) THEN 63 ELSE -1
+\* Strict decoding: [ok, v, canon].  ok: only alphabet characters, a possible length, and (pad)
+\* exactly the padding that completes the last quantum / (~pad) no padding at all.
+\* canon: the unused low bits of the last character are zero.
+B64Dec(s, url, pad) ==
+  LET np == IF pad THEN Cardinality({i \in 1..Len(s) : s[i] = 61 /\ \A k \in i..Len(s) : s[k] = 61}) ELSE 0
+      ns == Len(s) - np
+      okc == \A i \in 1..ns : B64Val(s[i], url) >= 0
+      oklen == (ns % 4) # 1 /\ (pad => ((Len(s) % 4) = 0 /\ np <= 2 /\ np = (4 - (ns % 4)) % 4))
+      nb == (ns * 6) \div 8
+      Bit(k) == \* k-th bit (0-based) of the sextet stream
+         (B64Val(s[k \div 6 + 1], url) \div Pow2(5 - (k % 6))) % 2
+      ByteAt(i) == LET k == (i - 1) * 8 IN
+         Bit(k) * 128 + Bit(k + 1) * 64 + Bit(k + 2) * 32 + Bit(k + 3) * 16 + Bit(k + 4) * 8 + Bit(k + 5) * 4 + Bit(k + 6) * 2 + Bit(k + 7)
+  IN IF ~(okc /\ oklen) THEN [ok |-> FALSE, v |-> <<>>, canon |-> FALSE]
+     ELSE [ok |-> TRUE, v |-> [i \in 1..nb |-> ByteAt(i)],
+           canon |-> \A k \in (nb * 8)..(ns * 6 - 1) : Bit(k) = 0]
+
 =============================================================================
